@@ -2,6 +2,7 @@
 #[macro_use]
 pub mod util;
 pub mod arena;
+pub mod bufs;
 pub mod drv;
 pub mod model;
 pub mod out;
@@ -61,6 +62,7 @@ fn main() {
     let args = Args::parse(&argv[1..]);
     let code = match argv[0].as_str() {
         "seq" => seq::child_main(&args),
+        "bufs" => bufs::child_main(&args),
         "drive" => drive::main(&args),
         other => {
             eprintln!("unknown engine {}", other);
